@@ -10,6 +10,7 @@
    acceptance by the extracted `step`, then by `monitor`. *)
 From Coq Require Import List ZArith Bool.
 From Ivv Require Import MT.WaitModel MT.WaitProofs.
+From Ivv Require Gen.LeafWait MT.WaitLink.
 Import ListNotations.
 Local Open Scope Z_scope.
 
@@ -96,6 +97,23 @@ Print Assumptions C11_drained.
 Theorem C11_invariant : forall s, reachable s -> Inv s.
 Proof. exact reachable_inv. Qed.
 Print Assumptions C11_invariant.
+
+(* THE KEY OF THE INTEREST SET OF THE MODEL IS THE CODE.  Gen/LeafWait.v is regenerated on every run by gen/c2gallina.py from
+   the clang AST of the current src/iv_wait.c: the whole comparator iv_wait_interest_compare of the tree iv_wait_interests and
+   the two tests `pid == p->pid`, `pid < p->pid` of __iv_wait_interest_find.  The comparator is the three-way comparison of
+   the pids, 0 exactly for equal pids (the tree holds at most one interest per pid: the model's find_pid looks up by
+   w_pid); the hit test of the search is the model's `w_pid w =? pid`, and the search descends left exactly when the
+   comparator puts a record with the searched pid before the node. *)
+Theorem C11_compare_is_the_code :
+  (forall a b : wrec, Ivv.Gen.LeafWait.wait_interest_compare (w_pid a) (w_pid b) =
+     Some (if w_pid a <? w_pid b then -1 else if w_pid b <? w_pid a then 1 else 0)) /\
+  (forall a b : wrec, Ivv.Gen.LeafWait.wait_interest_compare (w_pid a) (w_pid b) = Some 0 <-> w_pid a = w_pid b) /\
+  (forall pid (w : wrec), Ivv.Gen.LeafWait.wait_find_hit pid (w_pid w) = Some (w_pid w =? pid)) /\
+  (forall pid (w x : wrec), w_pid x = pid ->
+     Ivv.Gen.LeafWait.wait_find_left pid (w_pid w) = Some true <->
+     Ivv.Gen.LeafWait.wait_interest_compare (w_pid x) (w_pid w) = Some (-1)).
+Proof. exact Ivv.MT.WaitLink.wait_link_all. Qed.
+Print Assumptions C11_compare_is_the_code.
 
 Theorem C11_monitor_accepts : forall ls, accepts ls = true -> monitor ls = true.
 Proof. exact monitor_accepts. Qed.
